@@ -99,7 +99,18 @@ theorem recordUnmarshal_ne_panic (bs : Bytes) : recordUnmarshal bs ≠ .panic :=
 theorem naluUnmarshal_ne_panic (bs : Bytes) : naluUnmarshal bs ≠ .panic := by
   cases bs <;> simp [naluUnmarshal]
 
-theorem sampleLoop_ne_panic (n : Nat) (hn : 1 ≤ n) (fuel : Nat) (b : Bytes) (hf : b.length ≤ fuel) :
+theorem pow256_le7 (n : Nat) (h : n ≤ 7) : 256 ^ n < 2 ^ 63 := by
+  have : n = 0 ∨ n = 1 ∨ n = 2 ∨ n = 3 ∨ n = 4 ∨ n = 5 ∨ n = 6 ∨ n = 7 := by omega
+  rcases this with rfl | rfl | rfl | rfl | rfl | rfl | rfl | rfl <;> decide
+
+theorem ofBE_take_lt (n : Nat) (h : n ≤ 7) (b : Bytes) : ofBE (b.take n) < 2 ^ 63 := by
+  have h1 := ofBE_lt (b.take n)
+  have h2 : (b.take n).length ≤ n := by simp [List.length_take]; omega
+  have h3 : 256 ^ (b.take n).length ≤ 256 ^ n := Nat.pow_le_pow_right (by decide) h2
+  have := pow256_le7 n h
+  omega
+
+theorem sampleLoop_ne_panic (n : Nat) (hn : 1 ≤ n) (hn7 : n ≤ 7) (fuel : Nat) (b : Bytes) (hf : b.length ≤ fuel) :
     sampleLoop n fuel b ≠ .panic := by
   induction fuel generalizing b with
   | zero =>
@@ -112,7 +123,8 @@ theorem sampleLoop_ne_panic (n : Nat) (hn : 1 ≤ n) (fuel : Nat) (b : Bytes) (h
       simp only [sampleLoop]
       split
       · simp
-      · split
+      · rw [if_neg (by have := ofBE_take_lt n hn7 (c :: cs); omega)]
+        split
         · simp
         · apply Res.bind_ne_panic (naluUnmarshal_ne_panic _)
           intro a _
@@ -122,7 +134,7 @@ theorem sampleLoop_ne_panic (n : Nat) (hn : 1 ≤ n) (fuel : Nat) (b : Bytes) (h
             omega
           · intro ns _; simp
 
-theorem sampleLoop_sampleMarshal (n : Nat) (xs : List Nalu) (fuel : Nat)
+theorem sampleLoop_sampleMarshal (n : Nat) (hn7 : n ≤ 7) (xs : List Nalu) (fuel : Nat)
     (h : ∀ x ∈ xs, x.WF ∧ 1 + x.data.length < 256 ^ n)
     (hf : (sampleMarshal n xs).length ≤ fuel) :
     sampleLoop n fuel (sampleMarshal n xs) = ok xs := by
@@ -156,7 +168,7 @@ theorem sampleLoop_sampleMarshal (n : Nat) (xs : List Nalu) (fuel : Nat)
           simp only [List.length_append, be_length, naluMarshal_length] at hf
           omega
         simp only [nalu_rt x hx.1, ih fuel hxs hf', List.length_append, be_length]
-        rw [if_neg (by omega), if_neg (by omega)]
+        rw [if_neg (by omega), if_neg (by have := pow256_le7 n hn7; omega), if_neg (by omega)]
         rfl
 
 end Oryx.Avc
